@@ -242,8 +242,64 @@ def cluster_case(chk, k, case):
                    signature=signature(ser, text, flags, None, "cluster:" + name))
 
 
+def regression_cases():
+    """Deterministic headers run on every invocation: every keyword of every edition in every identifier position, and the reproducers of
+    the repaired C01 defects (fix commits 1e591667, b92fe2b5, 5c6ce921) — a regression there must not depend on what the sampler draws."""
+    out = []
+    words = [w for w in gen_names.RUST_WORDS if w not in ("true_", "false_")]
+    c_ok = [w for w in words if w not in ("virtual", "final", "override")] + ["virtual", "final", "override"]     # all fine in C
+    body = []
+    for k, w in enumerate(c_ok):
+        body.append("struct kw_s_%d { int %s; };" % (k, w))
+        body.append("int kw_fn_%d(int %s);" % (k, w))
+        body.append("extern int %s_;" % w if w in ("self", "Self", "crate", "super") else "")
+    out.append(("kw-fields-params", "h", "\n".join(body) + "\n", []))
+    out.append(("kw-functions", "h", "\n".join("int %s(int a);" % w for w in c_ok if w not in ("Self",)) + "\n", []))
+    out.append(("kw-variables", "h", "\n".join("extern int %s;" % w for w in c_ok) + "\n", []))
+    out.append(("kw-types", "h", "\n".join("struct %s { int x; }; typedef struct %s %s_t;" % (w, w, w) for w in c_ok) + "\n", []))
+    out.append(("kw-enumerators", "h", "enum kw_e { %s };\n" % ", ".join("%s" % w for w in c_ok), []))
+    for style in ("rust", "newtype", "bitfield", "moduleconsts", "consts", "newtype_global"):
+        out.append(("kw-enumerators-" + style, "h", "enum kw_e { %s };\nenum { %s };\n" % (", ".join("%s" % w for w in c_ok), ", ".join("A_%s" % w for w in c_ok[:6])),
+                    ["--default-enum-style", style]))
+    out.append(("kw-macros", "h", "\n".join("#define %s %d" % (w, k) for k, w in enumerate(c_ok) if w not in ("self", "Self", "crate", "super")) + "\n", []))
+    # b92fe2b5: new_type alias styles and constants of non-typedef / typedef / typedef-of-typedef types
+    consts = "typedef int td_t; typedef td_t td2_t; static const td_t A = 1; static const int B = 2; static const td2_t C = 3;\n#define M 5\nenum e { EA = 1 }; static const unsigned long long D = 7;\n"
+    for st in ("new_type", "new_type_deref", "type_alias"):
+        out.append(("alias-consts-" + st, "h", consts, ["--default-alias-style", st]))
+    # 5c6ce921: arrays of records that hold a type-parameter array
+    out.append(("array-of-tparam-array-holder", "hpp", "template <typename A> struct T0 { A arr[40]; };\nstruct C1 { T0<short> m1; };\nstruct C3 { C1 m1[2]; C1 m2[2][3]; };\n"
+                "struct C4 { C1 m; };\ntypedef C1 C1arr[4];\nstruct C5 { C1arr a; };\n", []))
+    return out
+
+
+def regression_case(chk, t):
+    name, ext, text, flags = t
+    d = chk.dir("reg-" + name)
+    p = write(os.path.join(d, "r." + ext), text)
+    out = os.path.join(d, "r.rs")
+    cargs = ["-x", "c++", "-std=c++14"] if ext == "hpp" else []
+    res = []
+    for ed in ("2018", "2021", "2024"):
+        fl = list(flags) + ["--rust-edition", ed] + (["--rust-target", "1.85"] if ed == "2024" else [])
+        cname = "regression-%s-%s" % (name, ed)
+        rc, so, se, _ = sh([build.BINDGEN, p] + fl + ["-o", out, "--"] + cargs, timeout=120, cpu=100, cwd=d)
+        if rc != 0:
+            res.append(Verdict(HELD, cname, obs={"bindgen_errors_deferred_to_C12": 1}) if not crashed(rc, se) else Verdict(HELD, cname, obs={"bindgen_crashes_deferred_to_C12": 1}))
+            continue
+        w = write(os.path.join(d, "w.rs"), '#![allow(warnings)]\ninclude!("%s");\n' % out)
+        rcr, sor, ser, _ = sh(["rustc", "--edition", ed, "--crate-type", "lib", "--emit=metadata", "-o", os.path.join(d, "w.rmeta"), w], timeout=300)
+        if rcr == 0:
+            res.append(Verdict(HELD, cname, obs={"regression_headers_compiled": 1, "rustc_runs": 1}, nontrivial=True, key=cname))
+        else:
+            res.append(Verdict(VIOLATED, cname, "rustc (edition %s) rejects the bindings: %s" % (ed, first_errors(ser)),
+                               files={"input." + ext: text, "flags.txt": " ".join(fl), "bindings.rs": open(out).read(), "rustc.txt": ser[-4000:]},
+                               signature=signature(ser, text, fl, None, "regression:" + name)))
+    return res
+
+
 def run(chk):
     from .c12 import cluster_cases
+    chk.map(lambda t: regression_case(chk, t), regression_cases(), budget_s=600)
     chk.map(lambda kc: cluster_case(chk, kc[0], kc[1]), list(enumerate(cluster_cases())), budget_s=600)
     chk.map(lambda i: gen_case(chk, i), range(chk.pick(450, 6000)), budget_s=chk.pick(500, 3000))
     return chk.finish(
